@@ -8,7 +8,7 @@ assignment reads back as the oracle normal form.
 import argparse
 from typing import Optional
 
-from cincoconfig import (BoolField, DictField, IntField, ListField, PortField, Schema, StringField,
+from cincoconfig import (BoolField, DictField, FeatureFlagField, IntField, ListField, PortField, Schema, StringField,
                          cmdline_args_override, reset_value)
 from cincoconfig.core import Config, ValidationError
 from cincoconfig.fields.dict_field import DictProxy
@@ -19,7 +19,7 @@ from vf.hlib.stubs import make_type_nt, plain
 
 ENC = ["cincoconfig.core.Config._set_value", "cincoconfig.core.Field.validate"]
 
-TARGETS = ("int", "str", "bool", "port", "lst", "dct", "items", "ct", "sub", "dyn")
+TARGETS = ("int", "str", "bool", "port", "lst", "dct", "items", "ct", "sub", "dyn", "portoff")
 ROUTES = ("attr", "dotted", "ctor", "load_tree", "submap", "cmdline", "reset")
 
 
@@ -85,6 +85,9 @@ def _schema(target: str, a: Optional[int], b: Optional[int], lo: Optional[int], 
         schema.x = BoolField(default=False)
     elif target in ("port", "sub"):
         schema.sub.p = PortField(default=80)
+    elif target == "portoff":
+        schema.sub.enabled = FeatureFlagField(default=False)   # a switched-off feature section
+        schema.sub.p = PortField(default=80)
     elif target == "lst":
         schema.x = ListField(IntField(min=0), default=lambda: [1, 2])
     elif target == "dct":
@@ -107,7 +110,7 @@ def _inv(target: str, cfg: Config, a, b, lo, hi) -> bool:
     q = cfg.sub.q
     if q is not None and type(q) is not str:
         return False
-    if target in ("port", "sub"):
+    if target in ("port", "sub", "portoff"):
         p = cfg.sub.p
         return p is None or (type(p) is int and 1 <= p <= 65535)
     if target == "dyn":
@@ -162,11 +165,11 @@ def _step(target: str, route: str, sel: int, v: int, w: int, f: float, t: str,
           a: Optional[int], b: Optional[int], lo: Optional[int], hi: Optional[int], d: Optional[int]) -> bool:
     arg = _arg(sel, v, w, f, t, symbolic_str=target in ("str", "bool", "dyn"))
     schema = _schema(target, a, b, lo, hi, d)
-    key = "sub.p" if target == "port" else ("sub" if target == "sub" else ("newkey" if target == "dyn" else "x"))
+    key = "sub.p" if target in ("port", "portoff") else ("sub" if target == "sub" else ("newkey" if target == "dyn" else "x"))
     raised = None
     if route == "ctor":
         try:
-            if target in ("port",):
+            if target in ("port", "portoff"):
                 cfg = schema(sub={"p": arg})
             elif target == "sub":
                 cfg = schema(sub=arg)
@@ -182,17 +185,17 @@ def _step(target: str, route: str, sel: int, v: int, w: int, f: float, t: str,
         before = _others(cfg)
         try:
             if route == "attr":
-                if target == "port":
+                if target in ("port", "portoff"):
                     cfg.sub.p = arg
                 else:
                     cfg.__setattr__(key, arg)  # (builtin setattr() runs __setattr__ outside the tracer)
             elif route == "dotted":
                 cfg[key] = arg
             elif route == "load_tree":
-                tree = {"sub": {"p": arg}} if target == "port" else {key: arg}
+                tree = {"sub": {"p": arg}} if target in ("port", "portoff") else {key: arg}
                 cfg.load_tree(tree)
             elif route == "submap":
-                if target not in ("port", "ct", "sub"):
+                if target not in ("port", "ct", "sub", "portoff"):
                     skip("nested-map assignment needs a sub-configuration")
                 if target == "ct":
                     cfg.x = {"v": arg}
@@ -220,7 +223,7 @@ def _step(target: str, route: str, sel: int, v: int, w: int, f: float, t: str,
     hold("inv", _inv(target, cfg, a, b, lo, hi),
          lambda: "after %s(%r) the configuration holds an invalid value: %r" % (route, arg, plain(cfg)))
     # every route must also agree with iteration / dotted read
-    if target not in ("port", "sub", "dyn"):
+    if target not in ("port", "sub", "dyn", "portoff"):
         hold("inv", cfg["x"] is cfg.x or cfg["x"] == cfg.x, "dotted read differs from attribute read")
     if raised is None and route in ("attr", "dotted", "ctor", "load_tree"):
         # read-back = oracle normal form, for argument shapes whose normal form is unambiguous
@@ -240,7 +243,7 @@ def _step(target: str, route: str, sel: int, v: int, w: int, f: float, t: str,
             hold("readback", [i.v for i in cfg.x] == [v, w], "items read-back differs")
         if target == "ct" and sel == 8:
             hold("readback", cfg.x.v == v, "config-type read-back differs")
-        if target == "port" and sel == 2:
+        if target in ("port", "portoff") and sel == 2:
             hold("readback", cfg.sub.p == v, "port read-back differs")
         if target == "sub" and sel == 12:
             hold("readback", cfg.sub.p == v, "sub-config map read-back differs")
@@ -311,11 +314,11 @@ def _mk(target: str, route: str):
 
 for _r in ROUTES:
     for _t in TARGETS:
-        if _r == "submap" and _t not in ("port", "ct", "sub"):
+        if _r == "submap" and _t not in ("port", "ct", "sub", "portoff"):
             continue
         if _r == "cmdline" and _t in ("items", "ct", "sub", "lst", "dct", "dyn"):
             continue
-        if _r == "reset" and _t in ("dyn", "sub"):
+        if _r == "reset" and _t in ("dyn", "sub", "portoff"):
             continue
         if _t == "sub" and _r in ("dotted",):
             continue
